@@ -182,12 +182,21 @@ func (vc *VC) doAlloc(st *State, elemGo types.Type, hint string) Value {
 	switch el.K {
 	case KArray:
 		ee := *el.Elem
-		if ee.single() {
-			comp := vc.elemsComp(ee)
-			vc.hset(st, comp, Store(vc.hget(st.heap, comp), r, ZeroOf(ArrSort(SInt, ee.SortOf()))))
-			vc.noteWrite(comp, r)
-		} else if ee.K != KUnit {
-			vc.fail("array of composite element type %s", ee)
+		if ee.K != KUnit {
+			func() {
+				defer func() {
+					if rr := recover(); rr != nil {
+						if e2, isEval := rr.(evalError); isEval {
+							vc.fail("%s", e2.msg)
+						}
+						panic(rr)
+					}
+				}()
+				for _, ln := range vc.elemLanes(ee) {
+					vc.hset(st, ln.comp, Store(vc.hget(st.heap, ln.comp), r, ZeroOf(ArrSort(SInt, ln.sort))))
+					vc.noteWrite(ln.comp, r)
+				}
+			}()
 		}
 		return PtrVal{Loc: Loc{"elems:" + ee.String(), []Term{r}}, Elem: el}
 	}
@@ -360,7 +369,8 @@ func (vc *VC) width(t types.Type) Term {
 
 func (vc *VC) structEq(a, b StructVal) Term {
 	var parts []Term
-	for k, av := range a.F {
+	for _, k := range sortedKeys(a.F) {
+		av := a.F[k]
 		bv := b.F[k]
 		switch x := av.(type) {
 		case StructVal:
